@@ -430,7 +430,7 @@ def snapshot(d):
     from odf.opendocument import IS_FILENAME
     s = {'mimetype': d.mimetype}
     for k, v in L.loaded_sections(d).items():
-        s[k] = L.merge_text([L.norm(x) for x in v])
+        s[k] = sorted(v) if k.startswith('@') else L.merge_text([L.norm(x) for x in v])
     pics = {}
     for name, (what, obj, mt) in d.Pictures.items():
         if what == IS_FILENAME:
